@@ -157,7 +157,7 @@ impl Property for C08 {
         ]
     }
     fn expected_probes(&self) -> Vec<&'static str> {
-        vec!["path_cpu_c000_bank7", "shadow_displayed", "flash_runs_checked", "beam_before", "beam_after", "path_poke", "path_sna", "path_szx", "path_scr", "path_fastload"]
+        vec!["path_cpu_c000_bank7", "shadow_displayed", "flash_runs_checked", "beam_before", "beam_after", "path_poke", "path_sna", "path_szx", "path_scr", "path_fastload", "beam_host_write"]
     }
 
     fn gen(&self, rng: &mut Rng, tier: Tier, idx: u64) -> Scenario {
@@ -196,6 +196,7 @@ impl Property for C08 {
                 sc.set("attr", rng.bool() as i64);
                 sc.set("before", rng.bool() as i64);
                 sc.set("lines", rng.range(2, 40));
+                sc.set("writer", rng.range(0, 2));
                 sc.set("shadow", 0);
             }
         }
@@ -454,18 +455,32 @@ impl Property for C08 {
                 if t_w < 40 || t_w + 40 > cfg.frame_len() as u64 {
                     return Ok(());
                 }
-                // program: LD (HL),A ; DI ; JR $
-                write_mem(&mut e, 0x8300, &[0x77, 0xF3, 0x18, 0xFE]);
-                let mut st = cpu_state(&mut e);
-                st.pc = 0x8300;
-                st.hl = 0x4000 + off as u16;
-                st.af = (new as u16) << 8;
-                st.to_impl(e.verif_cpu());
                 // we are right after a frame boundary: forward jump only
                 if e.verif_frame_clocks() as u64 > t_w {
                     return Ok(());
                 }
-                e.verif_set_frame_clocks(t_w as usize);
+                let writer = sc.get("writer").clamp(0, 2);
+                if writer == 0 {
+                    // program: LD (HL),A ; DI ; JR $
+                    write_mem(&mut e, 0x8300, &[0x77, 0xF3, 0x18, 0xFE]);
+                    let mut st = cpu_state(&mut e);
+                    st.pc = 0x8300;
+                    st.hl = 0x4000 + off as u16;
+                    st.af = (new as u16) << 8;
+                    st.to_impl(e.verif_cpu());
+                    e.verif_set_frame_clocks(t_w as usize);
+                } else {
+                    // host-side write while emulation is stopped in the middle of the frame: the machine
+                    // first executes up to the write instant (one idle instruction after the clock jump)
+                    ctx.probe("beam_host_write");
+                    e.verif_set_frame_clocks(t_w as usize);
+                    step_public(&mut e).map_err(|x| Fail::new("C08.step", "", x))?;
+                    if writer == 1 {
+                        e.execute_poke(Pokes(vec![PokeAction::mem(0x4000 + off as u16, new)]));
+                    } else {
+                        write_mem(&mut e, 0x4000 + off as u16, &[new]);
+                    }
+                }
                 run_frames(&mut e, 1).map_err(|x| Fail::new("C08.run", "", x))?;
                 let mut mem_old = s2.clone();
                 let mut mem_new = s2.clone();
@@ -480,7 +495,7 @@ impl Property for C08 {
                 if exp_now != e.screen_buffer().px {
                     return Err(Fail::new(
                         "C08.beam_relative",
-                        &format!("before={},attr={}", before as u8, is_attr as u8),
+                        &format!("before={},attr={},writer={}", before as u8, is_attr as u8, sc.get("writer")),
                         format!("a byte at line {} column {} changed {} lines {} the beam position (T={}) {} in the frame in which it was written", y, col, lines, if before { "before" } else { "after" }, t_w, if before { "did not appear" } else { "already appeared" }),
                     ));
                 }
